@@ -29,7 +29,8 @@ using std::chrono::seconds;
 struct MEntry {
     std::vector<std::uint8_t> bytes;
     TP deadline;
-    bool present = true;         // record still held (expired records stay until a lookup or sweep drops them)
+    bool present = true;         // record still held (expired records stay until a sweep drops them)
+    bool maybe_dropped = false;  // a lookup saw the record expired: the store may or may not have dropped it already
     TP old_deadline{};           // deadline of the overwritten record, if any
     bool overwritten = false;
 };
@@ -130,7 +131,7 @@ void layer_a(Ctx& c) {
                     if (got_deadline && *got_deadline != it->second.deadline) c.fail("C01:wrong-deadline", "record deadline differs");
                 } else {
                     if (got.has_value()) c.fail("C01:served-after-deadline", "lookup served chunk c" + std::to_string(k) + " at/after its deadline");
-                    if (it != model.end()) it->second.present = false;  // a lookup of an expired record drops it
+                    if (it != model.end()) it->second.maybe_dropped = true;  // a lookup of an expired record may drop it
                 }
                 break;
             }
@@ -143,7 +144,8 @@ void layer_a(Ctx& c) {
                     bool expect = e.present && now() >= e.deadline;
                     int n = cnt.count(k2) ? cnt[k2] : 0;
                     if (!expect && n) c.fail(now() < e.deadline ? "C01:sweep-removed-live-chunk" : "C01:sweep-reported-absent-chunk", "sweep reported c" + std::to_string(k2));
-                    if (expect && n != 1) c.fail("C01:sweep-missed-expired-chunk", "sweep reported expired c" + std::to_string(k2) + " " + std::to_string(n) + " times");
+                    if (expect && n > 1) c.fail("C01:sweep-reported-twice", "sweep reported expired c" + std::to_string(k2) + " " + std::to_string(n) + " times");
+                    if (expect && n != 1 && !e.maybe_dropped) c.fail("C01:sweep-missed-expired-chunk", "sweep reported expired c" + std::to_string(k2) + " " + std::to_string(n) + " times");
                     if (expect) e.present = false;
                 }
                 break;
@@ -180,6 +182,7 @@ void layer_b(Ctx& c) {
     c.note("B min=%llds max=%llds def=%llds cleanup=%ds", (long long)min_ttl.count(), (long long)max_ttl.count(), (long long)def_ttl.count(), kCleanup[t.h(4) % 4]);
     vnode::FakePeer peer;
     if (!peer.attach(node, vnode::make_id(2, 0xBB), 99)) c.fail("C01:harness-error", "could not attach fake peer");
+    vnode::QuiesceGuard guard{node, {&peer}};
     std::map<int, MEntry> model;
     std::map<int, std::vector<std::uint8_t>> plain;
 
@@ -233,7 +236,7 @@ void layer_b(Ctx& c) {
                     if (*got != plain[k]) c.fail("C01:wrong-bytes", "fetch_chunk returned bytes different from the latest store");
                 } else {
                     if (got.has_value()) c.fail("C01:served-after-deadline", "fetch_chunk served c" + std::to_string(k) + " at/after its deadline");
-                    if (it != model.end()) it->second.present = false;
+                    if (it != model.end()) it->second.maybe_dropped = true;
                 }
                 break;
             }
@@ -249,7 +252,7 @@ void layer_b(Ctx& c) {
                     if (got->expires_at != it->second.deadline) c.fail("C01:wrong-deadline", "export_chunk_record deadline differs");
                 } else {
                     if (got.has_value()) c.fail("C01:served-after-deadline", "export_chunk_record served c" + std::to_string(k) + " at/after its deadline");
-                    if (it != model.end()) it->second.present = false;
+                    if (it != model.end()) it->second.maybe_dropped = true;
                 }
                 break;
             }
@@ -278,7 +281,7 @@ void layer_b(Ctx& c) {
                 if (live && it->second.deadline - now() >= min_ttl + seconds(1) && !chunk_sent)
                     c.fail("C01:live-chunk-not-served", "peer request for live chunk c" + std::to_string(k) + " (remaining > min ttl) got no CHUNK");
                 if (!live && !nack) c.fail("C01:no-negative-ack", "peer request for an expired/unknown chunk got no negative ACK");
-                if (!live && it != model.end()) it->second.present = false;
+                if (!live && it != model.end()) it->second.maybe_dropped = true;
                 break;
             }
             case 4: c.note("|tick"); node.tick(); break;
@@ -288,7 +291,6 @@ void layer_b(Ctx& c) {
         }
         check_listing();
     }
-    vnode::quiesce(node, {&peer});
 }
 }  // namespace
 
